@@ -46,6 +46,8 @@ type waitAn struct {
 	awaits     map[*types.Func]bool
 	taintField map[*types.Var]bool
 	changed    bool
+	// entries: names of the methods the serve walk starts from (nil = the handler methods)
+	entries map[string]bool
 }
 
 func (w *waitAn) set(m map[*types.Func]bool, f *types.Func) {
@@ -630,7 +632,11 @@ func (w *waitAn) serveWalk(fnName func(*ast.FuncDecl) string, visit func(fn stri
 		}
 	}
 	for fn, fd := range w.decls {
-		if fd.Recv != nil && handlerEntry[fd.Name.Name] {
+		entries := w.entries
+		if entries == nil {
+			entries = handlerEntry
+		}
+		if fd.Recv != nil && entries[fd.Name.Name] {
 			push(fn, ^uint64(0))
 		}
 	}
@@ -752,7 +758,15 @@ func waitFactsOf(l *loaded) *waitFact {
 // waitFactsOfX also returns the channel operations on the serve goroutine (chanfacts.go; only
 // when fset is given) and the exported request helpers of the package.
 func waitFactsOfX(l *loaded, fset *token.FileSet) (*waitFact, []chanOp, []string) {
-	w := &waitAn{l: l, decls: map[*types.Func]*ast.FuncDecl{}, awaits: map[*types.Func]bool{}, taintField: map[*types.Var]bool{}}
+	return waitFactsOfEntries(l, fset, nil)
+}
+
+// rootServeEntries: the serve goroutine of the root package starts in the exported method
+// (*Session).Serve (an API name).
+var rootServeEntries = map[string]bool{"Serve": true}
+
+func waitFactsOfEntries(l *loaded, fset *token.FileSet, entries map[string]bool) (*waitFact, []chanOp, []string) {
+	w := &waitAn{l: l, decls: map[*types.Func]*ast.FuncDecl{}, awaits: map[*types.Func]bool{}, taintField: map[*types.Var]bool{}, entries: entries}
 	var fds []*ast.FuncDecl
 	for _, file := range l.Files {
 		if ast.IsGenerated(file) {
